@@ -89,6 +89,10 @@ func (e *Engine) freshResults(st *State, x *ssa.Call, sig *types.Signature, tag 
 				vals[i] = e.freshInput(fmt.Sprintf("ret_%s_%d", tag, e.skolem), w)
 			}
 		case *types.Slice:
+			if eb, isB := u.Elem().Underlying().(*types.Basic); !isB || eb.Kind() != types.Uint8 {
+				vals[i] = zero(t) // only byte slices get symbolic contents; other slices are empty
+				continue
+			}
 			e.skolem++
 			nm := fmt.Sprintf("ret_%s_%d", sanitize(tag), e.skolem)
 			arr := Var("in_"+nm, Arr(8))
@@ -126,6 +130,9 @@ func (e *Engine) freshResults(st *State, x *ssa.Call, sig *types.Signature, tag 
 		vs := append([]Value(nil), vals...)
 		vs[i] = e.newError(o, "stub-error:"+tag, nil)
 		o.log = append(o.log, "  -> "+tag+" returns error")
+		if n := len(o.stubs); n > 0 {
+			o.stubs[n-1].failed = true
+		}
 		set(o, vs)
 		e.extraForks = append(e.extraForks, o)
 		e.Forks++
